@@ -80,7 +80,7 @@ func (p *KPlan) Valid() bool {
 	if !(p.Scenario == 8 || p.Scenario == 16 || p.Scenario == 17 || p.Scenario == 18) {
 		return false
 	}
-	if p.Transport < 0 || p.Transport > 1 || p.ReplySize < 0 || p.ReplySize > 80 || len(p.Ops) > 80 || len(p.Tasks) > 4 {
+	if p.Transport < 0 || p.Transport > 1 || p.ReplySize < 0 || p.ReplySize > 80 || len(p.Ops) > 250 || len(p.Tasks) > 4 {
 		return false
 	}
 	if (p.Scenario == 8 || p.Scenario == 17) && p.ReplySize < 32 {
@@ -287,7 +287,7 @@ func genInit(r *core.Rng, p *KPlan) {
 func GenKPlanC08(r *core.Rng) *KPlan {
 	p := &KPlan{Scenario: 8}
 	genInit(r, p)
-	n := r.Range(1, 10)
+	n := r.Range(1, core.Scale(10, false))
 	if r.Chance(1, 20) {
 		n = r.Range(20, 60) // long histories: thresholds, counters, buffers that grow
 	}
@@ -393,7 +393,7 @@ func GenKPlanC16(r *core.Rng) *KPlan {
 func GenKPlanC17(r *core.Rng) *KPlan {
 	p := &KPlan{Scenario: 17}
 	genInit(r, p)
-	n := r.Range(1, 10)
+	n := r.Range(1, core.Scale(10, false))
 	if r.Chance(1, 15) {
 		n = r.Range(20, 60)
 	}
